@@ -403,6 +403,10 @@ func histConfig(g *pkgGen, i int) *genOut {
 		c.Contents = append(c.Contents, &files.Content{Destination: fmt.Sprintf("/var/lib/hist%d/complete", i), Type: "dir",
 			FileInfo: &files.ContentFileInfo{Owner: "svc", Group: "svc", Mode: 0o750, MTime: time.Unix(1500000000, 0).UTC()}})
 	}
+	// spellings a packager may want to tidy up - a source with a trailing slash, a destination with a ".." that stays below the
+	// root: whatever is tidied is the build's own copy
+	c.Contents = append(c.Contents, &files.Content{Source: "src/h/", Destination: fmt.Sprintf("/opt/hist%d/tidy-tree", i), Type: "tree"},
+		&files.Content{Source: "src/f2", Destination: fmt.Sprintf("/opt/hist%d/up/../down/f2", i)})
 	// a symbolic link with every file_info field configured whose target exists on the build host (planning looks at
 	// the target: whatever it learns belongs to the build, not to the parsed configuration)
 	if i%3 != 1 {
